@@ -148,7 +148,15 @@ fn gc_plan(prop: &'static str, tier: &str) -> Vec<HxCfg> {
 
 pub fn hx_plan(prop: &'static str, tier: &str) -> Vec<HxCfg> {
     match prop {
-        "C01" | "C02" | "C04" | "C06" => gc_plan(prop, tier),
+        "C01" | "C02" | "C06" => gc_plan(prop, tier),
+        "C04" => {
+            // add() must also work on graphs that slice() returned
+            let mut v = gc_plan(prop, tier);
+            for c in v.iter_mut().take(2) {
+                c.probes.slice_add = true;
+            }
+            v
+        }
         "C03" => {
             let mut v = vec![];
             let mut c = HxCfg::new(prop, "3 ids, 3 labels (N=2: label capacity is hit)", 2, 3, &[0, 1, 2], &[0, 1, 2], &[0]);
@@ -159,6 +167,7 @@ pub fn hx_plan(prop: &'static str, tier: &str) -> Vec<HxCfg> {
                 v.push(all_ops(a3(prop, "3 ids, all ops")));
                 v.push(depth(a4(prop, "4 ids"), 6));
                 v.push(seeded5(prop, "5 ids from seeds", 3));
+                v.push(depth(HxCfg::new(prop, "3 ids, two labels that print alike ('a b' and 'ab')", 2, 3, &[0, 1, 2], &[8, 9], &[0]), 6));
             } else {
                 v.push(wall(depth(c, 10), 900));
                 v.push(wall(all_ops(a3x(prop, "3 ids, 2 labels, 2 data, all ops")), 1500));
@@ -247,6 +256,8 @@ pub fn hx_plan(prop: &'static str, tier: &str) -> Vec<HxCfg> {
                     p(depth(a4(prop, "4 ids"), 6)),
                     p(depth(HxCfg::new(prop, "ids 0,2,5 in 7 slots (never-added slots in between)", 2, 7, &[0, 2, 5], &[0, 3], &[3]), 5)),
                     p(seeded5(prop, "5 ids from seeds", 2)),
+                    p(depth(HxCfg::new(prop, "ids 0, 256, 511 in 520 slots", 2, 520, &[0, 256, 511], &[0], &[3]), 4)),
+                    p(depth(HxCfg::new(prop, "3 ids, two labels that print alike ('a b' and 'ab')", 2, 3, &[0, 1, 2], &[8, 9], &[3]), 5)),
                 ]
             } else {
                 vec![
@@ -256,6 +267,8 @@ pub fn hx_plan(prop: &'static str, tier: &str) -> Vec<HxCfg> {
                     wall(p(depth(a4(prop, "4 ids"), 10)), 1500),
                     wall(p(depth(HxCfg::new(prop, "ids 0,2,5 in 7 slots (never-added slots in between)", 2, 7, &[0, 2, 5], &[0, 3], &[3]), 7)), 900),
                     wall(p(seeded5(prop, "5 ids from seeds", 4)), 900),
+                    wall(p(depth(HxCfg::new(prop, "ids 0, 256, 511 in 520 slots", 2, 520, &[0, 256, 511], &[0], &[3]), 6)), 600),
+                    wall(p(depth(HxCfg::new(prop, "3 ids, two labels that print alike ('a b' and 'ab')", 2, 3, &[0, 1, 2], &[8, 9], &[3]), 7)), 600),
                 ]
             }
         }
